@@ -290,6 +290,9 @@ func runC13(c *fw.Ctx) {
 		{"repeated-name-no-path-directive", "JSIGHT 0.3\nURL /a/{id}/b/{id}\n  GET\n    200 any\n"},
 		{"nested-object", mk("/a/{id}", "{\n  \"id\": {\n    \"x\": 1\n  }\n}", "")},
 		{"array-property", mk("/a/{id}", "{\n  \"id\": [1]\n}", "")},
+		{"empty-object-typed-any", mk("/a/{id}", "{\n  \"id\": {} // {type: \"any\"}\n}", "")},
+		{"empty-array-typed-any", mk("/a/{id}", "{\n  \"id\": [] // {type: \"any\"}\n}", "")},
+		{"object-typed-by-rule", mk("/a/{id}", "{\n  \"id\": {\"x\": 1} // {type: \"@ob\"}\n}", "TYPE @ob\n  {\"x\": 1}\n")},
 		{"scalar-type-ref", mk("/a/{id}", "@sc", "TYPE @sc\n  1\n")},
 		{"array-type-ref", mk("/a/{id}", "@ar", "TYPE @ar\n  [1]\n")},
 		{"undefined-type-ref", mk("/a/{id}", "@nope", "")},
